@@ -89,12 +89,19 @@ func MustCall(caller Callable, options ...CallOption) {
 	}
 }
 
+// maxCallArgs is the most arguments CallArgs can pass on: they travel as the results of a generated function, and
+// reflect.FuncOf supports at most 128 parameters and results
+const maxCallArgs = 128
+
 // CallArgs returns a CallOption that will pass the provided args to a Callable that is called via the Call function
 func CallArgs(args ...interface{}) CallOption {
 	return func(config *callConfig) error {
 		in, err := resolveArgs(config.this, typesArgs(args))
 		if err != nil {
 			return fmt.Errorf(`bigbuff.CallArgs %s`, err)
+		}
+		if len(in) > maxCallArgs {
+			return fmt.Errorf(`bigbuff.CallArgs args error: too many: max=%d len=%d`, maxCallArgs, len(in))
 		}
 		config.args = reflect.MakeFunc(
 			reflect.FuncOf(nil, in, false),
